@@ -273,6 +273,7 @@ def run_sched(case):
         revs = mvcc.full_history(w, log)
         mvcc.check_snapshots(w, log, revs=revs)
         mvcc.check_no_lost_updates(w, log, allow_gaps=True)
+        mvcc.check_pokers(w, log, w.poker_results, packed=True)
         # readers: errors only for snapshots older than a pack time
         stops = [ev['stop'] for ev in packs if ev['outcome'] == 'ok']
         for ev in w.rec.events:
